@@ -1,5 +1,7 @@
 import OrsoVerif.Lemmas.Arrow
 import OrsoVerif.Lemmas.ArrowCols
+import OrsoVerif.Lemmas.ArrowFrame
+import OrsoVerif.Lemmas.Frame
 /-!
 # C11 — Arrow interchange preserves rows, nulls, order and column typing
 
@@ -51,6 +53,12 @@ theorem to_arrow_guard_spec (k : Int) :
   · unfold Gen.ArrowExpr.toArrowLimitTest; first | omega | trivial
   · unfold Gen.ArrowExpr.toArrowHeadArg; rfl
 
+/-- `to_arrow`: the columns are built empty (instead of by `zip(*rows)`) exactly for a frame without
+rows (`dataset.rowcount == 0`). -/
+theorem to_arrow_empty_guard_spec : EmptyFact := by
+  intro n
+  unfold Gen.ArrowExpr.toArrowEmptyTest; first | omega | trivial
+
 /-- `arrow_field`: the arguments handed to `pyarrow.decimal128` are the column's own precision
 (when it is at least 1) and the column's own scale — **including scale 0** (the repaired defect:
 `self.scale or 10` does not satisfy this). -/
@@ -67,6 +75,27 @@ theorem decimal_defaulting_spec :
 
 /-- The facts in the form the skeleton lemmas take them. -/
 theorem next_facts : NextFacts := ⟨next_guard_spec, next_bookkeeping_spec⟩
+
+/-- `DataFrame.head(k)` — the glue `to_arrow` limits the frame with — is the first `k` rows.  `head`
+is `slice(headOffset k, headLength k)` over the window arithmetic *generated* from dataframe.py
+(`if offset < 0: offset = max(len + offset, 0)`, `if length == 0`, `rows[offset : offset + length]`,
+`head`'s arguments `0, size`): a changed operator there breaks this fact. -/
+theorem head_glue_spec : HeadFact := by
+  intro β k rows
+  have hoff : Frame.sliceOffset rows.length (Gen.Frame.headOffset (k : Int)) = ((0 : Nat) : Int) := by
+    unfold Frame.sliceOffset Gen.Frame.headOffset Gen.Frame.sliceNegTest Gen.Frame.sliceNegStart
+    first | rfl | (simp only []; split <;> omega) | (simp; omega)
+  have hlen : (Gen.Frame.headLength (k : Int)).toNat = k := by
+    unfold Gen.Frame.headLength; omega
+  unfold head Frame.head Frame.slice
+  simp only [hoff, hlen]
+  by_cases hk : Gen.Frame.sliceZeroTest (k : Int)
+  · have h0 : k = 0 := by unfold Gen.Frame.sliceZeroTest at hk; omega
+    rw [if_pos hk, h0, List.take_zero]
+  · rw [if_neg hk]
+    have hstop : Gen.Frame.sliceStop ((0 : Nat) : Int) (k : Int) = ((0 : Nat) : Int) + (k : Int) := by
+      unfold Gen.Frame.sliceStop; first | rfl | omega
+    rw [hstop, Frame.pySlice_nonneg, List.drop_zero]
 
 /-! ## Rows -/
 
@@ -162,7 +191,7 @@ def specLimited (rows : List (List α)) : Option Int → List (List α)
 
 /-- `to_arrow`'s generated guard and `head` argument limit the frame exactly that way. -/
 theorem limited_spec (rows : List (List α)) (size : Option Int) : limited rows size = specLimited rows size := by
-  unfold limited limitArg specLimited head
+  unfold limited limitArg specLimited
   cases size with
   | none => rfl
   | some k =>
@@ -172,7 +201,7 @@ theorem limited_spec (rows : List (List α)) (size : Option Int) : limited rows 
       simp only [h1, h2]
       have h0 : (0 : Int) ≤ Int.ofNat n := Int.natCast_nonneg n
       rw [if_pos h0]
-      rfl
+      exact head_glue_spec n rows
     | negSucc n =>
       simp only [h1]
       rw [if_neg (by have := Int.negSucc_lt_zero n; omega)]
@@ -186,12 +215,122 @@ theorem to_from_roundtrip (names : List String) (rows : List (List α)) (size : 
     roundtripRows names rows size = specLimited rows size ∧
     (toArrow names rows size).names = names ∧
     (toArrow names rows size).numRows = (specLimited rows size).length := by
-  have hrows := toArrow_rows names rows size hw hrect
+  have hrows := toArrow_rows head_glue_spec to_arrow_empty_guard_spec names rows size hw hrect
   rw [← limited_spec]
-  refine ⟨?_, toArrow_names names rows size, toArrow_numRows names rows size hw hrect⟩
+  refine ⟨?_, toArrow_names names rows size, toArrow_numRows head_glue_spec to_arrow_empty_guard_spec names rows size hw hrect⟩
   unfold roundtripRows fromArrowRows
   rw [(iterator_spec _).1, hrows]
   simp [Table.rows]
+
+/-- **Every batch constant, every limit.**  `_RowsIterator` built with *any* positive `batch_size` and
+any `max_size` (none = `float("inf")`) over any tables delivers every row with index below the limit,
+in order, once: the rows do not depend on the batch constant at all (`from_arrow` uses
+`min(size, BATCH_SIZE)`, the harness also drives the class directly with batch sizes 1, 2, 3, …). -/
+theorem iterator_any_batch_spec (tables : List (Table α)) (b : Nat) (hb : 0 < b) (m : Option Nat) :
+    drain { tables := tables, current := [], processed := 0, maxSize := m, batch := b } =
+      match m with
+      | none => (tables.map Table.rows).flatten
+      | some k => ((tables.map Table.rows).flatten).take k := by
+  have key : (It.mk tables [] 0 m b).remaining = (tables.map Table.rows).flatten := by
+    simp only [It.remaining, List.nil_append]
+    congr 1
+    apply List.map_congr_left
+    intro t _
+    exact processTable_eq_rows _ hb t
+  rw [drain_eq next_facts, key]
+  cases m with
+  | none =>
+    have hroom : (It.mk tables [] 0 none b).room = (It.mk tables [] 0 none b).remaining.length := rfl
+    rw [hroom, key, List.take_length]
+  | some k =>
+    have hroom : (It.mk tables [] 0 (some k) b).room = k := by simp only [It.room]; omega
+    rw [hroom]
+
+/-! ## One frame, converted more than once
+
+`Model/ArrowFrame.lean`: a frame is lazily backed (its `_rows` *is* the `_RowsIterator` / generator,
+and so is its cursor) or eager; `step` is one call, `run` a history of calls.  `Fr.listRows` is the
+list the frame materialises to — the rows it holds. -/
+
+/-- **A conversion does not change the frame and depends only on the rows it holds.**  For every
+frame state (lazily backed with any iterator state, or eager with any cursor) and every size:
+`arrow(size)` returns the table `to_arrow` builds from the frame's rows, and afterwards the frame
+holds the same rows (now as a list). -/
+theorem arrow_keeps_frame (names : List String) (f : Fr (List α)) (size : Option Int) :
+    (step names f (.arrow size)).2 = .table (toArrow names f.listRows size) ∧
+    (step names f (.arrow size)).1.listRows = f.listRows ∧
+    (step names f (.arrow size)).1.isLazy = false := by
+  refine ⟨?_, materialize_listRows f, materialize_not_lazy f⟩
+  simp only [step, materialize_listRows]
+
+/-- What each call does to the rows a frame holds (`rowsAfter`, written out in
+`Lemmas/ArrowFrame.lean`): a cursor fetch on a frame that is *still lazy* takes the fetched rows out
+of the frame (cursor and row source are one object), `append` adds a row to an eager frame, every
+other call — conversions, `len`, iteration, `head`, fetches on an eager frame — leaves them alone. -/
+theorem call_effect_on_rows (names : List String) (f : Fr (List α)) (op : Op (List α)) :
+    (step names f op).1.listRows = rowsAfter f.isLazy f.listRows op :=
+  step_listRows next_facts names f op
+
+/-- **Conversion is repeatable.**  In every history of calls without `append` and without a fetch on
+a still-lazy frame (`Quiet`), whatever the frame's state at the start: the frame holds the same rows
+at the end, and *every* `arrow(size)` in the history — the first, the second, after a `len`, after
+another conversion with another size — returns the table built from those same rows. -/
+theorem conversion_repeatable (names : List String) :
+    ∀ (ops : List (Op (List α))) (f : Fr (List α)), Quiet names f ops →
+      (run names f ops).2.listRows = f.listRows ∧
+      ∀ (i : Nat) (size : Option Int), ops[i]? = some (.arrow size) →
+        (run names f ops).1[i]? = some (.table (toArrow names f.listRows size)) := by
+  intro ops
+  induction ops with
+  | nil => intro f _; exact ⟨rfl, fun i size h => by simp at h⟩
+  | cons op ops ih =>
+    intro f hq
+    obtain ⟨hq1, hq2⟩ := hq
+    have hrows := step_quiet_rows next_facts names f op hq1
+    obtain ⟨ih1, ih2⟩ := ih (step names f op).1 hq2
+    refine ⟨?_, ?_⟩
+    · simp only [run]; rw [ih1, hrows]
+    · intro i size hi
+      cases i with
+      | zero =>
+        simp only [List.getElem?_cons_zero, Option.some.injEq] at hi
+        subst hi
+        simp only [run, List.getElem?_cons_zero, (arrow_keeps_frame names f size).1]
+      | succ i =>
+        simp only [List.getElem?_cons_succ] at hi
+        simp only [run, List.getElem?_cons_succ]
+        rw [ih2 i size hi, hrows]
+
+/-- The frame `DataFrame.from_arrow(tables)` returns holds one row per Arrow row, in order. -/
+theorem from_arrow_frame_rows (tables : List (Table α)) :
+    (Fr.lazy (init tables none)).listRows = (tables.map Table.rows).flatten :=
+  (iterator_spec tables).1
+
+/-- **Arrow → DataFrame → Arrow (any sizes, any number of times) → DataFrame.**  For the lazily backed
+frame `DataFrame.from_arrow(tables)` and every quiet history of calls on it: every `arrow(size)` in
+the history returns a table with the frame's column names which, read back, gives the Arrow rows of
+all tables cut to that size. -/
+theorem from_arrow_frame_conversions (names : List String) (tables : List (Table (List α)))
+    (ops : List (Op (List α))) (hq : Quiet names (.lazy (init tables none)) ops)
+    (hw : 0 < names.length) (hrect : ∀ r ∈ (tables.map Table.rows).flatten, r.length = names.length)
+    (i : Nat) (size : Option Int) (hi : ops[i]? = some (.arrow size)) :
+    ∃ t, (run names (.lazy (init tables none)) ops).1[i]? = some (.table t) ∧ t.names = names ∧
+      fromArrowRows [[t.rows]] none = specLimited ((tables.map Table.rows).flatten) size := by
+  obtain ⟨_, h⟩ := conversion_repeatable names ops (.lazy (init tables none)) hq
+  have h' := h i size hi
+  rw [from_arrow_frame_rows] at h'
+  obtain ⟨r1, r2, _⟩ := to_from_roundtrip names ((tables.map Table.rows).flatten) size hw hrect
+  exact ⟨_, h', r2, r1⟩
+
+/-- The reading behind `Quiet`, on a concrete frame: `fetchone()` on a frame that is still lazy takes
+the row out of the frame (a later `arrow()` has the other two), on an eager frame it does not; and once
+a lazy frame has been materialised (here by `arrow(1)`) its cursor is the exhausted source. -/
+theorem lazy_fetch_takes_rows :
+    (run ["a"] (.lazy (init [[[[1], [2], [3]]]] none)) [.fetch (some 1), .arrow none]).2.listRows = [[2], [3]] ∧
+    (run ["a"] (Fr.ofList [[1], [2], [3]]) [.fetch (some 1), .arrow none]).2.listRows = [[1], [2], [3]] ∧
+    (run ["a"] (.lazy (ofRows [[1], [2], [3]])) [.arrow (some 1), .arrow (some 2), .observe]).2.listRows
+      = [[1], [2], [3]] := by
+  decide +kernel
 
 /-- Non-vacuity (rows): a stream with empty tables and chunks everywhere, limited inside the last
 table; a frame going to Arrow and back. -/
@@ -350,6 +489,71 @@ ARRAY<VARCHAR>, the default `OrsoTypes.from_name("ARRAY")` also applies. -/
 theorem array_without_element_type :
     backTy false (forthTy .ARRAY none none none) = some (.ARRAY, some .VARCHAR, none, none) := by
   decide +kernel
+
+/-! ## The reverse direction: every Arrow type the reader accepts
+
+Not a clause of the statement, but what keeps the typing clause meaningful for frames that *start* as
+Arrow tables: reading is total on the accepted types and its image is stable (Arrow → Orso → Arrow →
+Orso gives the same column as Arrow → Orso), except where the open findings and the binary carriers
+already say otherwise. -/
+
+/-- The primitive Arrow type ids `arrow_type_map` answers: the keys of its *generated* table whose
+class is not `list`, and the literal-id branch (`id == 18`, TIMESTAMP). -/
+def readerPrimIds : List String :=
+  (Gen.Arrow.typeMap.filter (fun e => e.2 != "list")).map (·.1) ++
+    Gen.Arrow.literalIds.filterMap (fun e => (Gen.Arrow.typeIds.find? (fun t => t.2 = e.1)).map (·.1))
+
+/-- …and the list constructors it answers with `list`. -/
+def readerListIds : List String := (Gen.Arrow.typeMap.filter (fun e => e.2 == "list")).map (·.1)
+
+/-- Reading `a`, writing the column back with `arrow_field` and reading again gives the same column. -/
+def stableRead (a : ArrowTy) : Bool :=
+  match backTy false a with
+  | none => false
+  | some (t, e, p, s) => decide (backTy false (forthTy t e p s) = some (t, e, p, s))
+
+/-- The reader is total on what it accepts: every accepted primitive type, and every accepted list
+constructor over every accepted primitive type, becomes a column (`from_arrow` does not raise). -/
+theorem reader_total :
+    ∀ id ∈ readerPrimIds, (backTy false (.prim id)).isSome = true ∧
+      ∀ l ∈ readerListIds, (backTy false (.list l (.prim id))).isSome = true := by
+  decide +kernel
+
+/-- The reader's image is stable — outside DATE (open finding K03/K04: it is written as `date64`, which
+reads as TIMESTAMP) and STRUCT (deliberately carried as binary). -/
+theorem reader_image_stable :
+    ∀ id ∈ readerPrimIds,
+      (stableRead (.prim id) = true ∨
+        (backTy false (.prim id)).map (·.1) ∈ [some OrsoTy.DATE, some OrsoTy.STRUCT]) ∧
+      ∀ l ∈ readerListIds,
+        (stableRead (.list l (.prim id)) = true ∨
+          (backTy false (.list l (.prim id))).map (·.2.1) ∈ [some (some OrsoTy.DATE), some (some OrsoTy.STRUCT)]) := by
+  decide +kernel
+
+/-- Is `a` a decimal type (of an id the reader treats as decimal) with exactly this precision and scale? -/
+def isDecimalOf (p s : Nat) : ArrowTy → Bool
+  | .decimal i p' s' => Gen.Arrow.decimalIds.contains i && p' == p && s' == s
+  | _ => false
+
+/-- `arrow_field` writes DECIMAL(p, s) as an Arrow decimal type with exactly that precision and scale,
+over the whole grid (so a `decimal128(p, s)` field *is* the image of DECIMAL(p, s): the harness demands
+DECIMAL(p, s) of every such field of every table). -/
+theorem arrow_decimal_exact :
+    ∀ p ∈ List.range 39, ∀ s ∈ List.range (p + 1), 1 ≤ p →
+      isDecimalOf p s (forthTy .DECIMAL none (some p) (some s)) = true := by
+  decide +kernel
+
+/-- …and the reader gives every decimal type of an accepted id — every precision and scale, not only
+the grid, every such type however many were read before — the column DECIMAL(p, s): the answer is a
+function of the type's own precision and scale. -/
+theorem reader_decimal_exact :
+    ∀ id ∈ Gen.Arrow.decimalIds, ∀ p s : Nat,
+      backTy false (.decimal id p s) = some (.DECIMAL, none, some p, some s) := by
+  have key : ∀ id ∈ Gen.Arrow.decimalIds,
+      lookup id Gen.Arrow.typeMap = none ∧ Gen.Arrow.decimalIds.contains id = true := by decide +kernel
+  intro id hid p s
+  obtain ⟨h1, h2⟩ := key id hid
+  simp only [backTy, arrowTypeMap, ArrowTy.id, h1, h2, if_true, Gen.Arrow.carriesPrecisionScale]
 
 /-- **An Arrow field's name and nullability carry over to the column built from it**, for every
 field `FlatColumn.from_arrow` accepts (with or without `mappable_as_binary`). -/
